@@ -459,21 +459,23 @@ impl<W: Write + io::Seek> ZipWriter<W> {
             file.crc32 = self.stats.hasher.clone().finalize();
             file.uncompressed_size = self.stats.bytes_written;
 
-            let file_end = writer.stream_position()?;
-            file.compressed_size = file_end.checked_sub(self.stats.start).ok_or_else(|| {
-                io::Error::new(
-                    io::ErrorKind::Other,
-                    "Writer is positioned before the start of the current entry's data",
-                )
-            })?;
-
-            let patched = update_local_file_header(writer, file).and_then(|()| {
+            let start = self.stats.start;
+            let patched = (|| -> ZipResult<()> {
+                let file_end = writer.stream_position()?;
+                file.compressed_size = file_end.checked_sub(start).ok_or_else(|| {
+                    io::Error::new(
+                        io::ErrorKind::Other,
+                        "Writer is positioned before the start of the current entry's data",
+                    )
+                })?;
+                update_local_file_header(writer, file)?;
                 writer.seek(io::SeekFrom::Start(file_end))?;
                 Ok(())
-            });
+            })();
             if patched.is_err() {
-                // The sink is now somewhere inside the entry's header: nothing more can be
-                // written without corrupting what is already there.
+                // The entry is neither open nor closed (its compressor or cipher has been
+                // finished, its header not patched), or the sink is somewhere inside the
+                // header: nothing more can be written without corrupting what is there.
                 self.inner = GenericZipWriter::Closed;
                 return patched;
             }
